@@ -357,6 +357,17 @@ pub fn menu(prop: &str, tier: &str, depth: usize, e: &Exec) -> Vec<Op> {
             for r in 0..n {
                 out.push(Op::Remove { rank: r });
             }
+            // a frame moved to another context by an import under its id (same topic): whatever the
+            // old context's topic sweeps do afterwards must not touch it (seed C08-r7: a stale
+            // topic-index entry of the old context makes a later head:N sweep there delete it)
+            if let Some(target) = regs.last() {
+                if let Some((r, _)) = e.live.values().enumerate().find(|(_, m)| m.frame.topic == "a" && m.frame.context_id == xs::store::ZERO_CONTEXT) {
+                    out.push(Op::ImportOver { rank: r, topic: "a".into(), ctx: target.clone(), ttl: "".into() });
+                }
+                if let Some((r, _)) = e.live.values().enumerate().find(|(_, m)| m.frame.topic == "a" && m.frame.context_id != xs::store::ZERO_CONTEXT) {
+                    out.push(Op::ImportOver { rank: r, topic: "a".into(), ctx: Ctx::Zero, ttl: "".into() });
+                }
+            }
             clock_ops(e, &[-1, 0, 1], &mut out);
             expire_collect_ops(e, &mut out);
             gc_ops(e, true, &mut out);
